@@ -284,6 +284,11 @@ def corpus():
     out.append(gram.Spec([C("Expr", True, None), C("Atom", True, 0), C("Lit", False, 1, [("v", ("ann", "int", ("intRange", 0, 9)))]),
                           C("Neg", False, 0, [("e", ("cls", 0))]), C("Scale", False, 0, [("k", ("cls", 2)), ("e", ("cls", 0))]),
                           C("Elacs", False, 0, [("e", ("cls", 0)), ("k", ("cls", 2))])], 0, [2, 3, 4, 5, 1], True))
+    # containers sitting DIRECTLY inside a tuple (a bounded list and a plain list as components of a tuple-typed field), both depth modes
+    for expansion in (True, False):
+        out.append(gram.Spec([C("Expr", True, None), C("Lit", False, 0, [("v", ("ann", "int", ("intRange", 0, 9)))]), C("Neg", False, 0, [("e", ("cls", 0))]),
+                              C("Block", False, 0, [("body", ("tuple", ("ann", ("list", ("cls", 0)), ("listSize", 1, 2)), "int"))]),
+                              C("Zip", False, 0, [("cols", ("tuple", ("list", ("cls", 1)), ("tuple", ("cls", 0), "bool")))])], 0, [1, 2, 3, 4], expansion))
     return out
 
 
